@@ -65,7 +65,7 @@ def atoms(p):
             out.append(("wtest", taken != "0"))
         elif (s[0] == "op" or (s[0] == "call" and h.startswith("core::f64::<impl f64>::"))) and "'Terminal'), 0)" in rs[:400]:
             out.append(("ptest", taken != "0"))
-        elif s[0] == "call" and h.startswith("Vec::<Node>::len"):
+        elif s[0] == "call" and (h.startswith("Vec::<Node>::len") or h.startswith("Vec::<f64>::len")):     # kept weights and built children are pushed in pairs
             out.append(("n_outcomes", taken if taken in ("0", "1") else "many"))
         elif s[0] == "call" and h.startswith("Vec::<A>::len"):
             out.append(("n_actions", taken if taken in ("0", "1") else "many"))
